@@ -244,6 +244,18 @@ func vf07Worker(t *testing.T, lines []string) (out []string) {
 				t.Error(err)
 				return
 			}
+		case f[0] == "pats" && len(f) >= 1:
+			// the configured bind patterns change: a new authenticator over the same store
+			pats, ok := vfldapsrv.Patterns(f[1:])
+			if !ok {
+				bad = true
+				break
+			}
+			authn, err = New(cluster.URLs(), pats, 1, cluster.RootCAs, store, nil)
+			if err != nil {
+				t.Error(err)
+				return
+			}
 		case f[0] == "login" && len(f) == 4:
 			u, ok1 := atoi(f[1])
 			pw, ok2 := atoi(f[2])
